@@ -406,6 +406,7 @@ func init() {
 			return normStr(bs)
 		},
 		"strings.Clone": func(in *Interp, _ *frame, _ *ssa.Function, a []Value) Value { return a[0] },
+		"internal/stringslite.Clone": func(in *Interp, _ *frame, _ *ssa.Function, a []Value) Value { return a[0] },
 		"math.Float64bits": func(in *Interp, _ *frame, _ *ssa.Function, a []Value) Value {
 			return in.floatBits(f64Arg(a[0]), 64)
 		},
